@@ -139,24 +139,28 @@ theorem frame_length (p : Bytes) (t : Nat) :
     (frame p t).length = (natDec p.length).length + p.length + 2 := by
   simp [frame]; omega
 
+/-- `parse_payload` on any all-digit prefix whose value is the payload length (leading zeros allowed) -/
+theorem parsePayload_digits (ds p : Bytes) (t : Nat) (rest : Bytes) (hne : ds ≠ [])
+    (hd : ∀ b ∈ ds, isDigit b = true) (hl : decVal 0 ds = p.length) :
+    parsePayload (ds ++ 58 :: (p ++ t :: rest)) = some (p, t, rest) := by
+  have hne' : (ds ++ 58 :: (p ++ t :: rest)).isEmpty = false := by
+    cases ds with
+    | nil => exact absurd rfl hne
+    | cons a l => rfl
+  unfold parsePayload
+  rw [hne']
+  have hsplit := splitColon_append ds (p ++ t :: rest) (fun b hb => digit_ne_colon (hd b hb))
+  simp only [hsplit, pyInt_digits ds hne hd, hl]
+  simp
+
 /-- **The length prefix is the only thing that delimits a payload**: whatever the payload bytes
 are, `parse_payload` of a framed payload followed by anything returns exactly that payload, its
 type byte and the remainder. -/
 theorem parsePayload_frame (p : Bytes) (t : Nat) (rest : Bytes) :
     parsePayload (frame p t ++ rest) = some (p, t, rest) := by
-  have hne : (frame p t ++ rest).isEmpty = false := by
-    have := frame_ne_nil p t
-    cases hf : frame p t with
-    | nil => exact absurd hf this
-    | cons a l => simp
-  unfold parsePayload
-  rw [hne]
-  have hsplit : splitColon (frame p t ++ rest) = some (natDec p.length, p ++ t :: rest) := by
-    have : frame p t ++ rest = natDec p.length ++ 58 :: (p ++ t :: rest) := by simp [frame]
-    rw [this]
-    exact splitColon_append _ _ (fun b hb => digit_ne_colon (natDec_digits _ b hb))
-  simp only [hsplit, pyInt_natDec]
-  simp
+  have : frame p t ++ rest = natDec p.length ++ 58 :: (p ++ t :: rest) := by simp [frame]
+  rw [this]
+  exact parsePayload_digits _ p t rest (natDec_ne_nil _) (natDec_digits _) (decVal_natDec _)
 
 /-! ### UTF-8 -/
 
@@ -293,6 +297,22 @@ theorem isEmpty_append_of_ne_nil {a : Bytes} (b : Bytes) (h : a ≠ []) : (a ++ 
   | nil => exact absurd rfl h
   | cons x xs => rfl
 
+/-- one step of `parseF` once `parse_payload` has split the input -/
+theorem parseF_payload (fuel : Nat) (data p : Bytes) (t : Nat) (rest : Bytes)
+    (hp : parsePayload data = some (p, t, rest)) :
+    parseF (fuel + 1) data =
+      (if t = 35 then (pyInt p).map fun i => (.int i, rest)
+      else if t = 125 then (parseDictF fuel p).map fun d => (.dict d, rest)
+      else if t = 93 then (parseListF fuel p).map fun l => (.list l, rest)
+      else if t = 33 then some (.bool (p == [116, 114, 117, 101]), rest)
+      else if t = 63 then (if p.length = 1 then some (.bool (p == [116]), rest) else none)
+      else if t = 94 then (if floatTokOk p then some (.float p, rest) else none)
+      else if t = 126 then (if p.length = 0 then some (.null, rest) else none)
+      else if t = 44 then some (.bytes p, rest)
+      else if t = 36 then (utf8Dec p).map fun cps => (.text cps, rest)
+      else none) := by
+  rw [parseF, hp]
+
 /-- one leaf step of `parseF` on a framed payload -/
 theorem parseF_frame (fuel : Nat) (p : Bytes) (t : Nat) (rest : Bytes) :
     parseF (fuel + 1) (frame p t ++ rest) =
@@ -305,8 +325,8 @@ theorem parseF_frame (fuel : Nat) (p : Bytes) (t : Nat) (rest : Bytes) :
       else if t = 126 then (if p.length = 0 then some (.null, rest) else none)
       else if t = 44 then some (.bytes p, rest)
       else if t = 36 then (utf8Dec p).map fun cps => (.text cps, rest)
-      else none) := by
-  rw [parseF, parsePayload_frame]
+      else none) :=
+  parseF_payload fuel _ p t rest (parsePayload_frame p t rest)
 
 mutual
 theorem parseF_dump : ∀ (v : TVal) (fuel : Nat) (rest : Bytes), wf v = true → size v ≤ fuel →
@@ -488,5 +508,191 @@ theorem feed_out_prefix (bs : Bytes) (r : Run) : ∃ more, (feed r bs).out = r.o
     obtain ⟨m1, h1⟩ := step_out_prefix r b
     obtain ⟨m2, h2⟩ := ih (step r b)
     exact ⟨m1 ++ m2, by rw [h2, h1, List.append_assoc]⟩
+
+
+/-! ### the first message of the machine as a function of the input (`scan1`), and its relation
+to `parse` on arbitrary input -/
+
+/-- DATA then TYPE: `k` more payload bytes, then the type byte; `s` = symbols consumed so far -/
+def scanData : Nat → Bytes → Nat → Bytes → Option (TVal × Nat × Bytes)
+  | _, _, _, [] => none
+  | 0, acc, s, t :: rest => if isType t then (convert t acc).map fun v => (v, s + 1, rest) else none
+  | k + 1, acc, s, b :: rest => scanData k (acc ++ [b]) (s + 1) rest
+
+/-- SIZE (at least one digit already read, value `n`), then COLON -/
+def scanSize : Nat → Nat → Bytes → Option (TVal × Nat × Bytes)
+  | _, _, [] => none
+  | n, s, b :: rest =>
+    if isDigit b then scanSize (n * 10 + (b - 48)) (s + 1) rest
+    else if b == 58 then scanData n [] (s + 1) rest
+    else none
+
+/-- the first message: (payload, symbols consumed, remaining input), or `none` when the input ends
+first or the machine fails -/
+def scan1 (s : Nat) : Bytes → Option (TVal × Nat × Bytes)
+  | [] => none
+  | b :: rest => if isDigit b then scanSize (b - 48) (s + 1) rest else none
+
+theorem scanData_feed (data : Bytes) : ∀ (k : Nat) (acc : Bytes) (s : Nat) (out : List (TVal × Nat)),
+    match scanData k acc s data with
+    | some (v, m, rest) => feed ⟨.data k acc, out, s⟩ data = feed ⟨.start, out ++ [(v, m)], m⟩ rest
+    | none => (feed ⟨.data k acc, out, s⟩ data).out = out := by
+  induction data with
+  | nil => intro k acc s out; cases k <;> simp [scanData, feed_nil]
+  | cons b data ih =>
+    intro k acc s out
+    cases k with
+    | zero =>
+      simp only [scanData, feed_cons, step]
+      cases ht : isType b with
+      | false => simp [feed_failed]
+      | true =>
+        cases hc : convert b acc with
+        | none => simp [feed_failed]
+        | some v => simp
+    | succ k =>
+      simp only [scanData, feed_cons, step]
+      exact ih k (acc ++ [b]) (s + 1) out
+
+theorem scanSize_feed (data : Bytes) : ∀ (n s : Nat) (out : List (TVal × Nat)),
+    match scanSize n s data with
+    | some (v, m, rest) => feed ⟨.size n, out, s⟩ data = feed ⟨.start, out ++ [(v, m)], m⟩ rest
+    | none => (feed ⟨.size n, out, s⟩ data).out = out := by
+  induction data with
+  | nil => intro n s out; simp [scanSize, feed_nil]
+  | cons b data ih =>
+    intro n s out
+    simp only [scanSize, feed_cons, step]
+    cases hd : isDigit b with
+    | true => simpa using ih (n * 10 + (b - 48)) (s + 1) out
+    | false =>
+      cases hc : b == 58 with
+      | true => simpa using scanData_feed data n [] (s + 1) out
+      | false => simp [feed_failed]
+
+/-- the machine's behaviour up to and including its first message is `scan1` -/
+theorem scan1_feed (data : Bytes) (s : Nat) (out : List (TVal × Nat)) :
+    match scan1 s data with
+    | some (v, m, rest) => feed ⟨.start, out, s⟩ data = feed ⟨.start, out ++ [(v, m)], m⟩ rest
+    | none => (feed ⟨.start, out, s⟩ data).out = out := by
+  cases data with
+  | nil => simp [scan1, feed_nil]
+  | cons b data =>
+    simp only [scan1, feed_cons, step]
+    cases hd : isDigit b with
+    | true => simpa using scanSize_feed data (b - 48) (s + 1) out
+    | false => simp [feed_failed]
+
+theorem scanData_inv (data : Bytes) : ∀ (k : Nat) (acc : Bytes) (s : Nat) (v : TVal) (m : Nat) (rest : Bytes),
+    scanData k acc s data = some (v, m, rest) →
+    ∃ p t, data = p ++ t :: rest ∧ p.length = k ∧ isType t = true ∧ convert t (acc ++ p) = some v
+      ∧ m = s + k + 1 := by
+  induction data with
+  | nil => intro k acc s v m rest h; cases k <;> simp [scanData] at h
+  | cons b data ih =>
+    intro k acc s v m rest h
+    cases k with
+    | zero =>
+      simp only [scanData] at h
+      cases ht : isType b with
+      | false => simp [ht] at h
+      | true =>
+        simp only [ht, if_true, Option.map_eq_some_iff] at h
+        obtain ⟨w, hw, he⟩ := h
+        simp only [Prod.mk.injEq] at he
+        obtain ⟨rfl, rfl, rfl⟩ := he
+        exact ⟨[], b, by simp, rfl, ht, by simpa using hw, by omega⟩
+    | succ k =>
+      simp only [scanData] at h
+      obtain ⟨p, t, hd, hl, ht, hc, hm⟩ := ih k (acc ++ [b]) (s + 1) v m rest h
+      exact ⟨b :: p, t, by simp [hd], by simp [hl], ht, by simpa using hc, by omega⟩
+
+theorem scanSize_inv (data : Bytes) : ∀ (n s : Nat) (v : TVal) (m : Nat) (rest : Bytes),
+    scanSize n s data = some (v, m, rest) →
+    ∃ ds p t, data = ds ++ 58 :: (p ++ t :: rest) ∧ (∀ b ∈ ds, isDigit b = true)
+      ∧ p.length = decVal n ds ∧ isType t = true ∧ convert t p = some v
+      ∧ m = s + ds.length + 1 + p.length + 1 := by
+  induction data with
+  | nil => intro n s v m rest h; simp [scanSize] at h
+  | cons b data ih =>
+    intro n s v m rest h
+    simp only [scanSize] at h
+    cases hd : isDigit b with
+    | true =>
+      simp only [hd, if_true] at h
+      obtain ⟨ds, p, t, hdat, hdig, hl, ht, hc, hm⟩ := ih _ _ v m rest h
+      refine ⟨b :: ds, p, t, by simp [hdat], ?_, by simpa [decVal] using hl, ht, hc, by simp; omega⟩
+      intro x hx
+      simp only [List.mem_cons] at hx
+      rcases hx with rfl | hx
+      · exact hd
+      · exact hdig x hx
+    | false =>
+      cases hc : b == 58 with
+      | false => simp [hd, hc] at h
+      | true =>
+        simp only [hd, hc, if_true, Bool.false_eq_true, if_false] at h
+        obtain ⟨p, t, hdat, hl, ht, hcv, hm⟩ := scanData_inv data n [] (s + 1) v m rest h
+        have hb : b = 58 := by simpa using hc
+        exact ⟨[], p, t, by simp [hdat, hb], by simp, by simp [decVal, hl], ht, by simpa using hcv,
+          by simp; omega⟩
+
+/-- what `convert` delivers is what `parse` returns for the same payload and type byte -/
+theorem parseF_of_convert (fuel : Nat) (data p : Bytes) (t : Nat) (v : TVal) (rest : Bytes)
+    (hp : parsePayload data = some (p, t, rest)) (hc : convert t p = some v) :
+    parseF (fuel + 1) data = some (v, rest) := by
+  rw [parseF_payload fuel data p t rest hp]
+  unfold convert at hc
+  by_cases h44 : t = 44
+  · subst h44; simp at hc; simp [hc]
+  · by_cases h36 : t = 36
+    · subst h36
+      simp only [show (36 : Nat) ≠ 44 by decide, if_false, if_true, Option.map_eq_some_iff] at hc
+      obtain ⟨cps, h1, rfl⟩ := hc
+      simp [h1]
+    · by_cases h35 : t = 35
+      · subst h35
+        simp only [show (35 : Nat) ≠ 44 by decide, show (35 : Nat) ≠ 36 by decide, if_false, if_true,
+          Option.map_eq_some_iff] at hc
+        obtain ⟨i, h1, rfl⟩ := hc
+        simp [h1]
+      · by_cases h126 : t = 126
+        · subst h126
+          simp only [show (126 : Nat) ≠ 44 by decide, show (126 : Nat) ≠ 36 by decide,
+            show (126 : Nat) ≠ 35 by decide, if_false, if_true] at hc
+          by_cases hl : p.length = 0
+          · simp [hl] at hc; subst hc; simp [hl]
+          · simp [hl] at hc
+        · simp [h44, h36, h35, h126] at hc
+
+
+/-- a first message of the machine is what `parse` returns on the same input, and the machine has
+consumed exactly what `parse` consumed -/
+theorem scan1_parse (data : Bytes) (s : Nat) (v : TVal) (m : Nat) (rest : Bytes)
+    (h : scan1 s data = some (v, m, rest)) :
+    parse data = some (v, rest) ∧ m + rest.length = s + data.length := by
+  cases data with
+  | nil => simp [scan1] at h
+  | cons b data =>
+    simp only [scan1] at h
+    cases hd : isDigit b with
+    | false => simp [hd] at h
+    | true =>
+      simp only [hd, if_true] at h
+      obtain ⟨ds, p, t, hdat, hdig, hl, ht, hc, hm⟩ := scanSize_inv data _ _ v m rest h
+      have hdig' : ∀ x ∈ b :: ds, isDigit x = true := by
+        intro x hx
+        simp only [List.mem_cons] at hx
+        rcases hx with rfl | hx
+        · exact hd
+        · exact hdig x hx
+      have hval : decVal 0 (b :: ds) = p.length := by simp [decVal] at hl ⊢; exact hl.symm
+      have hp := parsePayload_digits (b :: ds) p t rest (by simp) hdig' hval
+      have hdata : b :: data = (b :: ds) ++ 58 :: (p ++ t :: rest) := by simp [hdat]
+      constructor
+      · unfold parse
+        rw [← hdata] at hp
+        exact parseF_of_convert _ _ p t v rest hp hc
+      · rw [hdata]; simp; omega
 
 end Cpppo.Tnet
